@@ -1,7 +1,7 @@
 """C02 — run queue hands each entry to exactly one taker: Chase-Lev skeleton + owner discipline."""
 from core import strip, is_field, key_str, order_ge, key_mentions
 from facts import AnalysisBroken
-from rules import (field_load, through_local, nodeset, callpred, field_of, ev, Unevaluable, forced_edges, atom_from, is_load_of,
+from rules import (writer_kind, field_load, through_local, nodeset, callpred, field_of, ev, Unevaluable, forced_edges, atom_from, is_load_of,
                    is_cas_on, is_full_fence, one, some, base_var)
 import stale
 
@@ -321,8 +321,8 @@ def check_push(ctx, P):
 def check_fields(ctx, P):
     allowed = {
         "top": {"wsd_work_stealing_deque_create": {"assign"}, POP: {"cas"}, STEAL: {"cas"}},
-        "bottom": {"wsd_work_stealing_deque_create": {"assign"}, POP: {"store"}, PUSH: {"store"}},
-        "underlying_array": {"wsd_work_stealing_deque_create": {"assign"}, PUSH: {"assign", "store"}},
+        "bottom": {"wsd_work_stealing_deque_create": {"assign"}, POP: {"assign"}, PUSH: {"assign"}},
+        "underlying_array": {"wsd_work_stealing_deque_create": {"assign"}, PUSH: {"assign"}},
     }
     for field, table in allowed.items():
         o = ctx.ob("fields." + field, "", "`%s` is written only by %s" % (field, ", ".join("%s(%s)" % (k, "/".join(sorted(v))) for k, v in table.items())),
@@ -332,7 +332,7 @@ def check_fields(ctx, P):
         for fn in P.unique_functions():
             for s in fn.stores_to(D, field):
                 n += 1
-                kind = s.aop if s.kind in ("atomic", "sync") else "assign"
+                kind = writer_kind(s)
                 if fn.name not in table or kind not in table[fn.name]:
                     bad = bad or ("`%s` in %s (%s)" % (s.node.text, fn.name, kind), s.node, "%s writer %s %s" % (field, fn.name, kind))
         ctx.expect_count("writers of " + field, n, 1)
